@@ -36,8 +36,18 @@ const watchdog = 30 * time.Second
 // guarded runs f on a private copy of the input, with a watchdog, and checks that the copy was not written to.
 // It returns (reached, violation): reached says whether a payload decoder was reached (f's own verdict).
 func guarded(entry string, in []byte, f func(b []byte) bool) (bool, string) {
-	b := append(make([]byte, 0, len(in)+32), in...) // spare capacity: an append would write behind the input
-	tail := b[len(b) : len(b)+32]
+	// first on a copy whose capacity equals its length (slice expressions beyond len panic only then) ...
+	if _, v := guardedCap(entry, in, f, 0); v != "" {
+		return false, v
+	}
+	// ... then on a copy with spare capacity (an append would write behind the input)
+	return guardedCap(entry, in, f, 32)
+}
+
+func guardedCap(entry string, in []byte, f func(b []byte) bool, spare int) (bool, string) {
+	b := append(make([]byte, 0, len(in)+spare), in...)
+	b = b[: len(in) : len(in)+spare]
+	tail := b[len(b) : len(b)+spare]
 	for i := range tail {
 		tail[i] = 0xA5
 	}
